@@ -223,6 +223,24 @@ pub fn special(codec: &str, q: &str, t: &mut Toks) -> Option<R<String>> {
                     Err(e) => terr(&e).to_string(),
                 }
             }
+            ("dna", "macro") | ("iupac", "macro") => {
+                // direct call of dna_seq / iupac_seq (source inclusion); the ASCII test of the proc-macro entry point is replicated
+                let h = t.hex()?;
+                let text = String::from_utf8(h).map_err(|_| Fail::BadOp("utf8".into()))?;
+                if !text.is_ascii() {
+                    "macroerr nonascii".to_string()
+                } else {
+                    let lit = syn::LitStr::new(&text, proc_macro2::Span::call_site());
+                    let r = if codec == "dna" { crate::derive_src::seqarray::dna_seq(&lit) } else { crate::derive_src::seqarray::iupac_seq(&lit) };
+                    match r {
+                        Ok((n, bits)) => {
+                            let b: String = bits.iter().map(|x| if *x != 0 { '1' } else { '0' }).collect();
+                            format!("{n} {}", if b.is_empty() { "-".to_string() } else { b })
+                        }
+                        Err(_) => "macroerr invalid".to_string(),
+                    }
+                }
+            }
             ("dna", "codontable") => codon_table::<Dna>(t)?,
             ("iupac", "codontable") => codon_table::<Iupac>(t)?,
             _ => return Err(Fail::BadOp("nospecial".into())),
